@@ -20,8 +20,9 @@ def get_full_docstring(declaration: nodes.ClassDef | nodes.FuncDef) -> str:
     else:  # pragma: no cover
         raise TypeError("Declaration is of wrong type.")
 
+    # Only a string in the first statement is the docstring, later ones can be e.g. the docstrings of attributes
     full_docstring = ""
-    for definition in definitions:
+    for definition in definitions[:1]:
         if isinstance(definition, nodes.ExpressionStmt) and isinstance(definition.expr, nodes.StrExpr):
             full_docstring = definition.expr.value
 
